@@ -1,4 +1,5 @@
 import PvModel.Lemmas.PopExpLemmas
+import PvModel.Lemmas.CountLemmas
 import PvModel.Props.C03
 import PvModel.Props.C10
 /-!
@@ -138,6 +139,106 @@ theorem monotone_sound (ops : List PopOp) (hm : monotone ops = true) (env : Env)
       obtain ⟨h2, hn''⟩ := ih hm.2 _ _ hn' h
       exact ⟨Num.le_trans _ _ _ h2 h1, hn''⟩
 
+/-! ## the whole sorted cost vector: rank-wise domination
+
+Stronger than "the best is kept": after a step made only of greedy / elitist writes, **every rank** of the sorted cost vector is not
+above what it was (`monotone_rank_sound` + `rank_le_of_countDom`).  The harness's skeleton-conformance suite compares consecutive
+recorded generations of every class with a monotone skeleton rank by rank; this is the theorem that makes that comparison a
+consequence of the generated classification rather than a heuristic. -/
+
+theorem prim_rank_le (env : Env) (henv : EnvNoNaN env) (ps k j : Nat) (p : Prim) (hp : p.monoOK = true)
+    (pop out : List Agent) (hn : NoNaN pop) (hl : pop.length ≤ ps) (h : p.eval env ps k j pop = .ok out) :
+    CountDom out pop ∧ NoNaN out ∧ out.length ≤ ps := by
+  cases p <;> simp only [Prim.monoOK] at hp <;> simp only [Prim.eval] at h
+  · cases h
+    exact ⟨countDom_of_perm (sortByCost_perm _ _), noNaN_of_perm (sortByCost_perm _ _) hn, by rw [sortByCost_length]; exact hl⟩
+  · cases h
+    refine ⟨countDom_sortAndTrim pop pop ps hn hl (fun _ => Nat.le_refl _), ?_, ?_⟩
+    · intro a ha; exact hn a (mem_sortByCost.mp (List.mem_of_mem_take ha))
+    · simp [sortAndTrim, List.length_take]; omega
+  · cases h
+    have hm := mapGreedy_best_le env k j pop hn (fun i => henv.1 k j pop i)
+    refine ⟨fun t => countLE_imap_le _ 0 pop (fun i a ha => ?_) t, hm.2.1, by rw [hm.2.2]; exact hl⟩
+    simpa using (chase_cost_le a _ (hn a ha) (henv.1 k j pop i)).1
+  · cases hp
+  · obtain ⟨h1, h2⟩ := countDom_greedyPopulation pop _ out h hn (henv.2 k j pop)
+    exact ⟨h1, (greedyPopulation_best_le pop _ out h hn (henv.2 k j pop)).2, by rw [h2]; exact hl⟩
+  · cases h
+    refine ⟨countDom_extendTrim pop _ ps hn (henv.2 k j pop) hl, noNaN_extendTrim pop _ ps hn (henv.2 k j pop), ?_⟩
+    unfold extendTrim
+    split
+    · exact hl
+    · simp [sortAndTrim, List.length_take]; omega
+  · cases hp
+  · cases hp
+  · cases hp
+
+theorem runSched_rank_le (env : Env) (henv : EnvNoNaN env) (ps k : Nat) (prims : List Prim)
+    (hall : prims.all Prim.monoOK = true) (sched : List Nat) (j : Nat) (pop out : List Agent) (hn : NoNaN pop) (hl : pop.length ≤ ps)
+    (h : runSched env ps k prims sched j pop = .ok out) :
+    CountDom out pop ∧ NoNaN out ∧ out.length ≤ ps := by
+  induction sched generalizing j pop with
+  | nil => simp [runSched] at h; subst h; exact ⟨countDom_refl _, hn, hl⟩
+  | cons s rest ih =>
+    simp only [runSched] at h
+    split at h
+    · exact ih _ _ hn hl h
+    · rename_i p hp
+      have hpOK : p.monoOK = true := List.all_eq_true.mp hall p (List.mem_of_getElem? hp)
+      split at h
+      · cases h
+      · rename_i pop' hev
+        obtain ⟨h1, hn', hl'⟩ := prim_rank_le env henv ps k j p hpOK pop pop' hn hl hev
+        obtain ⟨h2, hn'', hl''⟩ := ih _ _ hn' hl' h
+        exact ⟨countDom_trans h2 h1, hn'', hl''⟩
+
+theorem popOp_rank_le (env : Env) (henv : EnvNoNaN env) (ps k : Nat) (op : PopOp) (hop : op.monoOK = true)
+    (pop out : List Agent) (hn : NoNaN pop) (hl : pop.length ≤ ps) (h : op.eval env ps k pop = .ok out) :
+    CountDom out pop ∧ NoNaN out ∧ out.length ≤ ps := by
+  cases op with
+  | one p => exact prim_rank_le env henv ps k 0 p hop pop out hn hl h
+  | ctl prims => exact runSched_rank_le env henv ps k prims hop _ 0 pop out hn hl h
+
+/-- **rank-wise soundness of the syntactic elitism predicate**: a step all of whose writes are greedy or elitist, applied to at
+most `population_size` agents, yields a population that has, for every threshold, at least as many agents not costlier than the
+threshold — for every interpretation of challengers, new populations, extras and control flow. -/
+theorem monotone_rank_sound (ops : List PopOp) (hm : monotone ops = true) (env : Env) (henv : EnvNoNaN env) (ps k : Nat)
+    (pop out : List Agent) (hn : NoNaN pop) (hl : pop.length ≤ ps) (h : evalAll env ps k ops pop = .ok out) :
+    CountDom out pop ∧ NoNaN out ∧ out.length ≤ ps := by
+  induction ops generalizing k pop with
+  | nil => simp [evalAll] at h; subst h; exact ⟨countDom_refl _, hn, hl⟩
+  | cons op ops ih =>
+    simp only [monotone, List.all_cons, Bool.and_eq_true] at hm
+    simp only [evalAll] at h
+    split at h
+    · cases h
+    · rename_i pop' hev
+      obtain ⟨h1, hn', hl'⟩ := popOp_rank_le env henv ps k op hm.1 pop pop' hn hl hev
+      obtain ⟨h2, hn'', hl''⟩ := ih hm.2 _ _ hn' hl' h
+      exact ⟨countDom_trans h2 h1, hn'', hl''⟩
+
+/-- … stated on ranks: the `i`-th cheapest agent after the step is not costlier than the `i`-th cheapest before it (a monotone
+skeleton is size-preserving, so both vectors have `population_size` entries: `C10.size_sound`). -/
+theorem monotone_ranks (ops : List PopOp) (hm : monotone ops = true) (env : Env) (henv : EnvNoNaN env) (ps k : Nat)
+    (pop out : List Agent) (hn : NoNaN pop) (hl : pop.length ≤ ps) (h : evalAll env ps k ops pop = .ok out) (i : Nat)
+    (hip : i < (sortByCost .min pop).length) (hiq : i < (sortByCost .min out).length) :
+    Num.le ((sortByCost .min out)[i]).cost ((sortByCost .min pop)[i]).cost = true := by
+  obtain ⟨h1, h2, _⟩ := monotone_rank_sound ops hm env henv ps k pop out hn hl h
+  exact rank_le_of_countDom out pop h2 hn h1 i hip hiq
+
+/-- every monotone skeleton is size-preserving (the primitives allowed by `monoOK` are among those allowed by `sizeOK`). -/
+theorem monotone_sizePreserving (ops : List PopOp) (hm : monotone ops = true) : sizePreserving ops = true := by
+  simp only [monotone, sizePreserving, List.all_eq_true] at *
+  intro op hop
+  have := hm op hop
+  cases op with
+  | one p => cases p <;> simp_all [PopOp.monoOK, PopOp.sizeOK, Prim.monoOK, Prim.sizeOK]
+  | ctl ps =>
+    simp only [PopOp.monoOK, PopOp.sizeOK, List.all_eq_true] at *
+    intro p hp
+    have := this p hp
+    cases p <;> simp_all [Prim.monoOK, Prim.sizeOK]
+
 /-! ## the optimise loop: reported costs, both directions -/
 
 /-- the best cost of a recorded generation as the user sees it: lowest for a minimisation, highest for a maximisation. -/
@@ -229,6 +330,24 @@ theorem c17_skeleton (ps : Nat) (hps : 1 ≤ ps) (ops : List PopOp) (hm : monoto
       exact ⟨h2, h1⟩)
     (fun _ hs => hs) s0 res sN bN h
 
+/-- **C17, every rank, on the result of `optimize`** for a classified optimizer: consecutive recorded generations are snapshots of
+populations `p`, `p'` of exactly `population_size` agents with `p'` rank-wise not costlier than `p`. -/
+theorem c17_skeleton_ranks (ps : Nat) (ops : List PopOp) (hm : monotone ops = true)
+    (hdesc : C10.Describes alg ps ops EnvNoNaN)
+    (hinit : ∀ s s', alg.init s = .ok s' → NoNaN (alg.pop s') ∧ (alg.pop s').length = ps)
+    (s0 : σ) (res : Result R) (sN : σ) (bN : Book R)
+    (h : runBody ar cfg alg rate dir s0 = .ok (res, sN, bN)) :
+    Chain (fun g g' => ∃ p p', g = snapshot dir p ∧ g' = snapshot dir p' ∧ p.length = ps ∧ p'.length = ps ∧ CountDom p' p ∧
+      ∀ i (hi : i < (sortByCost .min p).length) (hi' : i < (sortByCost .min p').length),
+        Num.le ((sortByCost .min p')[i]).cost ((sortByCost .min p)[i]).cost = true) res.evolution :=
+  runBody_chain ar cfg alg rate dir (fun s => NoNaN (alg.pop s) ∧ (alg.pop s).length = ps) _ hinit
+    (fun s s' hs hst => by
+      obtain ⟨env, henv, hev⟩ := hdesc s s' hst
+      obtain ⟨h1, h2, _⟩ := monotone_rank_sound ops hm env henv ps 0 _ _ hs.1 (Nat.le_of_eq hs.2) hev
+      have hlen := C10.size_sound ops (monotone_sizePreserving ops hm) env ps 0 _ _ hs.2 hev
+      exact ⟨⟨h2, hlen⟩, _, _, rfl, rfl, hs.2, hlen, h1, fun i hi hi' => rank_le_of_countDom _ _ h2 hs.1 h1 i hi hi'⟩)
+    s0 res sN bN h
+
 end
 
 /-! ## non-vacuity -/
@@ -257,6 +376,11 @@ example : monotone [.one .replaceTrim] = false := by decide
 /-- 5,0,2 → (greedy) 1,0,1 → (extend with 4,-2 and trim to 3) -2,0,1 → … → best −2 ≤ 0 -/
 example : (evalAll env0 3 0 [.one .mapGreedy, .ctl [.extendTrim, .sortBy]] [ag 5 0, ag 0 1, ag 2 2]).map bestCost = .ok (.fin (-2)) := by
   decide +kernel
+/-- every rank: 5,0,2 (sorted 0,2,5) → -2,0,1: not above at any rank -/
+example : (evalAll env0 3 0 [.one .mapGreedy, .ctl [.extendTrim, .sortBy]] [ag 5 0, ag 0 1, ag 2 2]).map (fun l => (sortByCost .min l).map (·.cost))
+    = .ok [.fin (-2), .fin 0, .fin 1] := by decide +kernel
+/-- `setAt` keeps the best when it hits another index, yet loses a rank: it is not `monoOK`. -/
+example : Prim.monoOK .setAt = false := rfl
 /-- `mapFresh` really can lose the best: 0 → 7. -/
 example : (evalAll env0 3 0 [.one .mapFresh] [ag 5 0, ag 0 1, ag 2 2]).map bestCost = .ok (.fin 7) := by decide +kernel
 /-- a challenger passed first wins ties and the chain still never gets costlier. -/
